@@ -96,6 +96,16 @@ class PyRecord:
             raise AttributeError(k)
 
 
+class AbsIter:
+    """an abstract iterator held in a field of a stateful object: the rows it will yield and how many it has yielded"""
+
+    def __init__(self, rows, pos):
+        self.rows, self.pos = rows, pos
+
+    def __repr__(self):
+        return "<absiter>"
+
+
 class TypeRef:
     """a builtin/external type used only with isinstance / annotations"""
 
@@ -146,10 +156,10 @@ class St:
 
 
 class Outcome:
-    __slots__ = ("kind", "val", "st")
+    __slots__ = ("kind", "val", "st", "env")
 
-    def __init__(self, kind, val, st):
-        self.kind, self.val, self.st = kind, val, st   # kind: 'ret' | 'raise'
+    def __init__(self, kind, val, st, env=None):
+        self.kind, self.val, self.st, self.env = kind, val, st, env   # kind: 'ret' | 'raise'; env: final bindings
 
     def __repr__(self):
         return f"<{self.kind} {self.val!r} |pc|={len(self.st.pc)}>"
@@ -360,11 +370,11 @@ class Exec:
                 return
             for kind, val, env2, st2 in self.block(node.body, env, st):
                 if kind == "ret":
-                    yield Outcome("ret", val, st2)
+                    yield Outcome("ret", val, st2, env2)
                 elif kind == "raise":
-                    yield Outcome("raise", val, st2)
+                    yield Outcome("raise", val, st2, env2)
                 elif kind == "fall":
-                    yield Outcome("ret", None, st2)
+                    yield Outcome("ret", None, st2, env2)
                 else:
                     raise PyvcUnsupported(f"{kind} outside loop")
         finally:
@@ -436,6 +446,26 @@ class Exec:
                     yield ("raise", v, env, st2)
                 else:
                     yield ("ret", v, env, st2)
+        elif isinstance(s, ast.Assign) and self._next_on_field(s.value, env) is not None:
+            # x = next(self.<iterator field>) on a stateful object under contract: the field advances by one row
+            nm, fld = self._next_on_field(s.value, env)
+            rec = env[nm]
+            it = rec.fields[fld]
+            n_ = z3.Length(it.rows.e)
+            pos = coerce(it.pos, IntT)
+            for b, st2 in self.fork(st, pos < n_):
+                if b:
+                    e2 = dict(env)
+                    f2 = dict(rec.fields)
+                    f2[fld] = AbsIter(it.rows, Sym(IntT, pos + 1))
+                    r2 = PyRecord(rec.cname, f2)
+                    r2.mutable, r2.ftypes = True, rec.ftypes
+                    e2[nm] = r2
+                    for tgt in s.targets:
+                        self.assign(tgt, Sym(it.rows.ty.elem, it.rows.e[pos]), e2, st2)
+                    yield ("fall", None, e2, st2)
+                else:
+                    yield ("raise", Raised(ExcVal("StopIteration"), s.lineno), env, st2)
         elif isinstance(s, ast.Assign):
             for v, st2 in self.expr(s.value, env, st):
                 if isinstance(v, Raised):
@@ -498,6 +528,8 @@ class Exec:
                     yield ("raise", Raised(v, s.lineno), env, st2)
                 elif isinstance(v, ClassV):
                     yield ("raise", Raised(ExcVal(v.ci.name), s.lineno), env, st2)
+                elif isinstance(v, Sym) and isinstance(v.ty, ResultTy):
+                    yield ("raise", Raised(ExcVal("Exception", v.ty.fail_val(v.e)), s.lineno), env, st2)
                 elif isinstance(v, Sym) and (v.ty is ExcT or (isinstance(v.ty, OptTy) and v.ty.elem is ExcT)):
                     yield ("raise", Raised(ExcVal("Exception", v.e if v.ty is ExcT else v.ty.val(v.e)), s.lineno), env, st2)
                 else:
@@ -531,9 +563,31 @@ class Exec:
         else:
             raise PyvcUnsupported(f"statement {type(s).__name__} at line {getattr(s, 'lineno', '?')}")
 
+    def _next_on_field(self, e, env):
+        if (isinstance(e, ast.Call) and isinstance(e.func, ast.Name) and e.func.id == "next" and len(e.args) == 1
+                and isinstance(e.args[0], ast.Attribute) and isinstance(e.args[0].value, ast.Name)):
+            rec = env.get(e.args[0].value.id)
+            if isinstance(rec, PyRecord) and getattr(rec, "mutable", False) and isinstance(rec.fields.get(e.args[0].attr), AbsIter):
+                return e.args[0].value.id, e.args[0].attr
+        return None
+
     def assign(self, tgt, v, env, st):
         if isinstance(tgt, ast.Name):
             env[tgt.id] = v
+            return None
+        if (isinstance(tgt, ast.Attribute) and isinstance(tgt.value, ast.Name) and isinstance(env.get(tgt.value.id), PyRecord)
+                and getattr(env[tgt.value.id], "mutable", False)):
+            # attribute store on a stateful object under contract (its state is threaded through the execution): rebinds
+            # the path-local copy of the object with the field replaced
+            rec = env[tgt.value.id]
+            if tgt.attr not in rec.fields:
+                raise PyvcUnsupported(f"store to undeclared field {tgt.attr} of {rec.cname}")
+            ft = rec.ftypes.get(tgt.attr)
+            f2 = dict(rec.fields)
+            f2[tgt.attr] = Sym(ft, coerce(v, ft)) if isinstance(ft, Ty) else v
+            r2 = PyRecord(rec.cname, f2)
+            r2.mutable, r2.ftypes = True, rec.ftypes
+            env[tgt.value.id] = r2
             return None
         if isinstance(tgt, (ast.Tuple, ast.List)):
             parts = self.destructure(v, len(tgt.elts))
